@@ -236,6 +236,9 @@ def record(seed, texts):
                 break
             want_id = m.get("id")
             got = c.read(6.0 if want_id is not None else 0.25, until=(lambda x, w=want_id: w is not None and x.get("id") == w and "method" not in x))
+            if want_id is not None and c.alive() and not any(x.get("id") == want_id and "method" not in x for x in got):
+                # slow, not silent (a loaded machine): wait longer before the request counts as unanswered
+                got += c.read(30.0, until=(lambda x, w=want_id: x.get("id") == w and "method" not in x))
             for g in got:
                 events.append(abstract_recv(g, diag_texts, diag_seen, diag_payloads))
         tail = c.read(0.6)
